@@ -62,8 +62,12 @@ func atClock(now int64, f func()) (panicMsg string) {
 
 // runCommand executes a command at the given wall clock.
 func runCommand(now int64, c cmd.Command) (err error, panicMsg string) {
+	wd, _ := os.Getwd()
 	c = throughFlags(c)
 	panicMsg = atClock(now, func() { err = c.Execute() })
+	if wd != "" {
+		os.Chdir(wd)
+	}
 	return
 }
 
@@ -162,6 +166,11 @@ const (
 func genFileValue(t *rapid.T, k valueKind) float64 {
 	switch k {
 	case valDyadic:
+		if rapid.IntRange(0, 39).Draw(t, "dyInf") == 0 {
+			// +Inf: sums with it are exact and order-independent too (never -Inf here: with both signs in one slot
+			// the outcome of a NaN-skipping running sum depends on the order; C10 has a two-file case for that)
+			return math.Inf(1)
+		}
 		return float64(rapid.Int64Range(-1<<20, 1<<20).Draw(t, "dy")) / 8
 	case valPrintable:
 		switch rapid.IntRange(0, 5).Draw(t, "pk") {
